@@ -677,3 +677,10 @@ T('C16', 'twin-local-assigned-under-correlated-guard', PP, "        output, n = 
   "        if status is not None:\n            cleaned, n = r.subn(\"\", output)\n        if status is not None:\n            output = cleaned\n            assert n <= 2, 'unexpected output from external diff renderer'")
 M('C16', 'renderer-local-unbound-when-tool-missing', PP, "        output, n = r.subn(\"\", output)\n        assert n <= 2, 'unexpected output from external diff renderer'",
   "        if status == 0:\n            cleaned, n = r.subn(\"\", output)\n        output = cleaned\n        assert n <= 2, 'unexpected output from external diff renderer'", 'R16.9')
+
+# ------------------------------------------------------------------------------------------ op-guarded field reads
+M('C02', 'replace-arm-reads-valuelist', PATCH, "        elif op == DiffOp.REPLACE:\n            # Add replacement value and skip old\n            newobj.append(e.value)", "        elif op == DiffOp.REPLACE:\n            # Add replacement value and skip old\n            newobj.extend(e.valuelist)", 'R02.9')
+M('C02', 'remove-folded-into-replace-arm', PATCH, "        elif op == DiffOp.REMOVE:\n            # Delete values obj[index] by incrementing take to skip\n            skip = 1\n        elif op == DiffOp.REPLACE:\n            # Add replacement value and skip old\n            newobj.append(e.value)\n            skip = 1",
+  "        elif op in (DiffOp.REMOVE, DiffOp.REPLACE):\n            # Replace (or drop) the old value\n            newobj.append(e.value)\n            skip = 1", 'R02.9')
+T('C02', 'twin-op-alias-renamed', PATCH, "        op = e.op\n        index = e.key\n\n        # Take values from obj not mentioned in diff, up to not including index\n        newobj.extend(copy.deepcopy(value) for value in obj[take:index])\n\n        if op == DiffOp.ADDRANGE:",
+  "        kind = e.op\n        op = kind\n        index = e.key\n\n        # Take values from obj not mentioned in diff, up to not including index\n        newobj.extend(copy.deepcopy(value) for value in obj[take:index])\n\n        if e.op == DiffOp.ADDRANGE:")
